@@ -124,6 +124,31 @@ def doTree (l : Line) : Option String := do
   let toks := (← l.get? "t").splitOn ","
   let (e, rest) ← parseTree cx toks
   if !rest.isEmpty then none
+  -- round 5: `wrap=rscal|comp|sum c=… t2=TOKENS tv=…` : the wrapper built WITH the user temporary
+  -- (buffer 2, content `tv`) around the tree(s); answers also what the temporary holds afterwards
+  if let some w := l.get? "wrap" then
+    let c := (l.f? "c").getD nanF
+    let tv ← l.fs? "tv"
+    let e2 ← match l.get? "t2" with
+      | none => some e
+      | some t => do
+          let (b, r) ← parseTree cx (t.splitOn ",")
+          if r.isEmpty then some b else none
+    let jk : Nat → Vec Float := fun _ _ => nanF
+    let s0 : St Float := { mem := fun b => if b = 0 then vecOf x else if b = 1 then vecOf y else
+                                            if b = 2 then vecOf tv else fun _ => nanF, next := 3 }
+    let res ← match w, mode with
+      | "rscal", "oop" => some (callO jk (.rscal (rscalCtor e c).1 (rscalCtor e c).2) 0 s0)
+      | "comp", "oop" => some (callO jk (.comp e e2) 0 s0)
+      | "sum", "oop" => some (callO jk (.sum e e2) 0 s0)
+      | "rscal", "ip" => some (rscalTmpI jk (rscalCtor e c).1 (rscalCtor e c).2 2 0 1 s0)
+      | "comp", "ip" => some (compTmpI jk e e2 2 0 1 s0)
+      | "sum", "ip" => some (sumTmpI jk e e2 2 0 1 s0)
+      | _, _ => none
+    let dump (s : St Float) (b : Nat) := showList showBits ((List.range n).map (s.mem b))
+    return match res with
+      | .err er _ => showErr er
+      | .ok r s => s!"ok ret={r} val={dump s r} x={dump s 0} tmp={dump s 2}"
   let s0 : St Float := { mem := fun b => if b = 0 then vecOf x else if b = 1 then vecOf y
                                           else fun _ => nanF, next := 2 }
   let jk : Nat → Vec Float := fun _ _ => nanF
